@@ -316,9 +316,26 @@ def output_in_body(cfg):
     return False
 
 
+def placement_budget(cfg):
+    """Largest callback plaintext that still gives a URI / header / parameter of at most ~20 KB after the output block's
+    encoders (every netbios step doubles the size; five of them turn 1500 bytes into a 64 KB URL, which no HTTP client
+    sends)."""
+    factor, cur = 1.0, None
+    for n, a in cfg["post_steps"]:
+        if n == "BUILD":
+            cur = a
+        elif cur == "output":
+            if n in ("NETBIOS", "NETBIOSU"):
+                factor *= 2
+            elif n in ("BASE64", "BASE64URL"):
+                factor *= 1.34
+    return max(16, int(20000 / factor) - 64)
+
+
 def apply_op(sess, op):
     op = list(op)
     big_ok = output_in_body(sess.cfg)
+    small = placement_budget(sess.cfg)
     # at most one large blob per session (every message is re-decoded by fresh decoders after every step)
     budget = [None if getattr(sess, "big_used", 0) < 1 else 900]
 
@@ -333,9 +350,9 @@ def apply_op(sess, op):
     if op[0] == "checkin" and op[1] is not None:
         op[1] = (op[1][0], ex(op[1][1]))
     elif op[0] == "callback":
-        op[2] = ex(op[2], None if big_ok else 1500)
+        op[2] = ex(op[2], None if big_ok else min(1500, small))
     elif op[0] == "multi":
-        op[1] = [(c, ex(d, None if big_ok else 700)) for c, d in op[1]]
+        op[1] = [(c, ex(d, None if big_ok else min(700, small // max(1, len(op[1]))))) for c, d in op[1]]
     kind = op[0]
     if kind == "checkin":
         sess.checkin(tuple(op[1]) if op[1] is not None else None)
